@@ -234,6 +234,38 @@ func (c *c03) Generate(cx *Ctx, chunk int) []*Item {
 	for i := 0; i < nRandom; i++ {
 		add(c03Chain(r, all), "chain")
 	}
+	// deep recursion: the cut of an activation that sits under hundreds of frames (and whose own frame may long have no
+	// alternative left) still discards exactly what was created since its predicate was called - the outer choice points
+	// dm/1 (before) and dn/1 (after) keep all their alternatives, whatever the depth
+	{
+		deep := term.MustProgram(`
+dm(1). dm(2). dm(3).
+dn(a). dn(b).
+mk(0, []) :- !.
+mk(N, [x|T]) :- N1 is N-1, mk(N1, T).
+len([], 0).
+len([_|T], N) :- len(T, M), !, N is M+1.
+cnt(0) :- !.
+cnt(N) :- N1 is N-1, cnt(N1).
+cnt2(0).
+cnt2(N) :- N > 0, N1 is N-1, cnt2(N1), !.
+down(0, z).
+down(N, X) :- N > 0, N1 is N-1, down(N1, X), !.
+down(_, late).
+both(N) :- cnt2(N), !, cnt(N).
+both(_).
+`)
+		for _, d := range []int{5, 50, 120, 200, 250, 255, 256, 257, 300, 511, 512, 600, 1000} {
+			for _, q := range []string{
+				"dm(X), mk(%d, L), len(L, N), dn(Y)", "dm(X), once(cnt(%d)), dn(Y)", "dm(X), cnt2(%d), dn(Y)", "dm(X), down(%d, Z), dn(Y)",
+				"dm(X), \\+ \\+ cnt2(%d), dn(Y)", "catch((dm(X), cnt2(%d), dn(Y)), _, true)", "findall(X-Y, (dm(X), cnt2(%d), dn(Y)), L)",
+				"dm(X), both(%d), dn(Y)", "dm(X), call((cnt2(%d), !)), dn(Y)", "dm(X), (cnt2(%d) -> dn(Y) ; Y = none)",
+			} {
+				t, nv, qv := parseQuery(fmt.Sprintf(q, d))
+				metas = append(metas, &DiffMeta{Program: deep, Query: t, NVars: nv, QVars: qv, Max: 12, Family: "deep-recursion"})
+			}
+		}
+	}
 	items := prepareDiffItems(metas, 60000, ref.Options{})
 	for _, it := range items {
 		var m c01Meta
